@@ -103,11 +103,17 @@ def run(ck):
         ck.coqchk(["GM.Props.C01"])
     ck.evaluations = ck.stats.get("model_cases", 0)
     ck.distinct = ck.stats.get("model_distinct", 0)
-    ck.rule = ("per packet value: Len(), Encode into exactly Len() bytes, into a dirty oversized buffer, into Len()-1 bytes, "
-               "Encoder.Write after a larger packet went through the sync.Pool, Decode of the encoded bytes; compared with len_go, "
-               "encode_go, encode_into, encoder_write, wire_spec, wf (extracted). Packets: full flag matrices of every type, id table "
-               "{1,2,255,256,65534,65535,random}, string lengths {0,1,2,127,128,255,256,65534,65535} per string field, sizes solved for "
-               "remaining lengths {0,1,126..129,16382..16385,2097150..2097153}, lists of 1..8 and of 3000-5000 entries, seeded random "
-               "well-formed packets, a stream of not-well-formed packets (error vs error); helper functions varintLen/headerLen/"
-               "writeVarint/encodeHeader/writeLPBytes/writeUint compared directly up to and beyond 268435455; type table for all 16 nibbles. "
-               "distinct_nontrivial = distinct (type, remaining-length size class, flag row, well-formed?, outcome) labels hit")
+    ck.rule = ("per packet value: Len(), Encode into exactly Len() bytes, Len() and Encode once more on the same object, Encode into a "
+               "dirty buffer of Len()+{1,7,64} bytes (fill byte varied), Encode into 0, 1, Len()/2, Len()-2, Len()-1 bytes, Encoder.Write after a "
+               "larger 0xee packet went through the sync.Pool (GOMAXPROCS 1: deterministic re-use) and with an emptied pool, Type.New().Decode "
+               "of the encoded bytes; every third value again on an object that already went through Len/Encode/Write holding another value; "
+               "every 25 cases the last six encodable packets asynchronously through ONE Encoder, then flushed. Judged by the extracted clauses "
+               "of Codec/EncJudge.v (len_is_written, len_spec, encode_total, layout, dirty, short, wire_exact, roundtrip, stream, header; each "
+               "proved of the model), then compared with len_go, encode_go, encode_into, encoder_write. Packets: full flag matrices of every "
+               "type; every value 0..255 of connack code, suback code, publish/subscribe/will QoS, protocol level; ids through both bytes' "
+               "values (all 65535 in the thorough tier); string lengths {0,1,2,127,128,255,256,32767,32768,65534,65535} per string field; "
+               "sizes solved for remaining lengths {0,1,126..129,16382..16385,2097151,2097152 (thorough: 2097150..2097153 and list-shaped)}; "
+               "lists of 1..8, 9..1000 at powers of two +-1, and 3000-5000 entries; seeded random well-formed packets; not-well-formed "
+               "packets (error vs error, Len/Encode agreement); helper functions varintLen/headerLen/writeVarint/encodeHeader/writeLPBytes/"
+               "writeUint compared directly up to and beyond 268435455 (encodeHeader and writeVarint also judged); type table for all 16 "
+               "nibbles. distinct_nontrivial = distinct (type, remaining-length size class, flag row, well-formed?, outcome) labels hit")
